@@ -125,3 +125,37 @@ Proof. exact candidate_shape. Qed.
 Print Assumptions C05_replace_properties.
 Print Assumptions C05_replace_properties_loaded.
 Print Assumptions C05_replace_properties_candidate_shape.
+
+(* ---- the concrete model of the experimental move *)
+From Lithium Require Import PairsMove PairsMoveFrame.
+
+(* minimize-balanced WITH the experimental move (Model/PairsMove.v): its candidates are deletions of
+   reducible atoms or permutations of parts (and of the flags alongside) - before / after are never
+   touched - so it keeps any frame; no monitoring assumption is needed for the move any more *)
+Theorem C05_move :
+  forall cfg clk P S,
+    frame_preserving (pairs_move cfg clk) (fun _ _ => True) P S.
+Proof. exact pairs_move_is_frame_preserving. Qed.
+
+Theorem C05_move_loaded :
+  forall sp cfg clk verdict fuel d tc0 P r S,
+    splitter_ok sp -> load sp d = Ok tc0 -> find_markers d = Marked P r S ->
+    let w := result_world (run (pairs_move cfg clk) verdict fuel tc0 d) in
+    tests_in_frame P S (chron w) /\ in_frame P S (w_file w).
+Proof. exact pairs_move_loaded_keeps_frame. Qed.
+
+(* a moved candidate is a permutation of the parts (nothing added, nothing lost), flags alongside *)
+Theorem C05_move_candidate_is_permutation :
+  forall best c ib start stop,
+    wf best ->
+    let ps := split5 (tc_parts best) c ib start stop in
+    let fs := split5 (tc_red best) c ib start stop in
+    0 <= ib -> ib <= start -> start <= stop -> 0 <= c ->
+    Permutation.Permutation (tc_parts (moved best (parts_after ps) (parts_after fs))) (tc_parts best) /\
+    Permutation.Permutation (tc_parts (moved best (parts_before ps) (parts_before fs))) (tc_parts best) /\
+    wf (moved best (parts_after ps) (parts_after fs)) /\ wf (moved best (parts_before ps) (parts_before fs)).
+Proof. exact moved_is_permutation. Qed.
+
+Print Assumptions C05_move.
+Print Assumptions C05_move_loaded.
+Print Assumptions C05_move_candidate_is_permutation.
